@@ -104,4 +104,77 @@ proof fn lemma_bounded_mono(a: Seq<RegexNode>, i: int, n: int, n2: int)
     }
 }
 
+
+// ---- linearity: every position occurs once, except that `c...` = Cat[c, Star(c)] shares c with its star ----
+
+/// the positions below node i
+spec fn poss(a: Seq<RegexNode>, i: int) -> ISet<u32>
+    decreases i
+{
+    if i < 0 || i >= a.len() { ISet::empty() } else {
+        match a[i] {
+            RegexNode::Epsilon => ISet::empty(),
+            RegexNode::Terminal(p) => iset![p],
+            RegexNode::Nonterminal(p) => iset![p],
+            RegexNode::Command(p) => iset![p],
+            RegexNode::Subword(p) => iset![p],
+            RegexNode::EndMarker(p) => iset![p],
+            RegexNode::Star(c) => if c.0 < i { poss(a, c.0 as int) } else { ISet::empty() },
+            RegexNode::Or(ch) => ISet::new(|p: u32| exists|k: int| 0 <= k < ch@.len() && (#[trigger] ch@[k]).0 < i && poss(a, ch@[k].0 as int).contains(p)),
+            RegexNode::Cat(ch) => ISet::new(|p: u32| exists|k: int| 0 <= k < ch@.len() && (#[trigger] ch@[k]).0 < i && poss(a, ch@[k].0 as int).contains(p)),
+        }
+    }
+}
+
+/// `Cat[c, Star(c)]`: the regex of `c...`
+spec fn is_plus(a: Seq<RegexNode>, ch: Seq<RegexNodeId>) -> bool {
+    ch.len() == 2 && 0 <= ch[1].0 < a.len() && a[ch[1].0 as int] == RegexNode::Star(ch[0])
+}
+
+/// children have pairwise disjoint positions
+spec fn disjoint_children(a: Seq<RegexNode>, ch: Seq<RegexNodeId>) -> bool {
+    forall|k1: int, k2: int, p: u32| 0 <= k1 < ch.len() && 0 <= k2 < ch.len() && k1 != k2
+        && #[trigger] poss(a, ch[k1].0 as int).contains(p) ==> !#[trigger] poss(a, ch[k2].0 as int).contains(p)
+}
+
+/// every position occurs once (except that a `c...` node shares c with its star); stars only occur there
+spec fn lin_ok(a: Seq<RegexNode>, i: int) -> bool
+    decreases i
+{
+    if i < 0 || i >= a.len() { false } else {
+        match a[i] {
+            RegexNode::Star(c) => 0 <= c.0 < i && lin_ok(a, c.0 as int) && !(a[c.0 as int] is Star),
+            RegexNode::Or(ch) => (forall|k: int| 0 <= k < ch@.len() ==> 0 <= (#[trigger] ch@[k]).0 < i && lin_ok(a, ch@[k].0 as int) && !(a[ch@[k].0 as int] is Star))
+                && disjoint_children(a, ch@),
+            RegexNode::Cat(ch) =>
+                if is_plus(a, ch@) { 0 <= ch@[0].0 < i && ch@[1].0 < i && ch@[0].0 < ch@[1].0 && lin_ok(a, ch@[0].0 as int) && !(a[ch@[0].0 as int] is Star) }
+                else { (forall|k: int| 0 <= k < ch@.len() ==> 0 <= (#[trigger] ch@[k]).0 < i && lin_ok(a, ch@[k].0 as int) && !(a[ch@[k].0 as int] is Star))
+                    && disjoint_children(a, ch@) },
+            _ => true,
+        }
+    }
+}
+
+proof fn lemma_poss_bounded(a: Seq<RegexNode>, i: int, m: int, p: u32)
+    requires leaves_bounded(a, i, m), poss(a, i).contains(p)
+    ensures p <= m
+    decreases i
+{
+    if 0 <= i < a.len() {
+        match a[i] {
+            RegexNode::Star(c) => { if c.0 < i { lemma_poss_bounded(a, c.0 as int, m, p); } }
+            RegexNode::Or(ch) => {
+                let k = choose|k: int| 0 <= k < ch@.len() && (#[trigger] ch@[k]).0 < i && poss(a, ch@[k].0 as int).contains(p);
+                lemma_poss_bounded(a, ch@[k].0 as int, m, p);
+            }
+            RegexNode::Cat(ch) => {
+                let k = choose|k: int| 0 <= k < ch@.len() && (#[trigger] ch@[k]).0 < i && poss(a, ch@[k].0 as int).contains(p);
+                lemma_poss_bounded(a, ch@[k].0 as int, m, p);
+            }
+            _ => {}
+        }
+    }
+}
+
+
 } // verus!
